@@ -758,9 +758,12 @@ def run(ctx):
         "props/C02/gen.py and the input generators of check.py",
     ]
     ctx.assumptions += [
-        "A1 (pool): lib/util/src/threadpool.c refines a FIFO queue of process_block for every schedule and worker count "
-        "(record fifo_pool in Properties_C02.v = C09's pool_refines_fifo_l + progress); used as a hypothesis, exercised by "
-        "the component tie under real threads, seeded delays and C09's controlled scheduler",
+        "A1 (pool): lib/util/src/threadpool.c refines a FIFO queue of process_block for every schedule and worker count. "
+        "No longer a hypothesis of the Coq development: coq/BpPool instantiates the pool with C09's labelled transition "
+        "system (threadpool_is_fifo_pool, bp_on_threadpool in Properties_C02.v: every worker count >= 1, every admissible "
+        "schedule = arbitrary prefix, then rounds each giving every thread at least one turn, spurious wake-ups unrestricted; "
+        "callback never fails). What remains assumed is that C09's LTS models threadpool.c (C09's trace tie) and fairness "
+        "of the OS scheduler; exercised here by the component tie under real threads, seeded delays and C09's scheduler",
         "A2 (value passing): a block is not modified by the main thread between submit and dequeue, and the worker "
         "touches nothing but the block and its own scratch buffer (read off frontend.c/backend.c; ASan/TSan legs)",
         "A3: fragment hash table and block writer are deterministic functions of their call history (abstract in the "
@@ -772,6 +775,9 @@ def run(ctx):
         "owns the inode; file sizes / block starts beyond 4 GiB are reached only by the setter tie (h_ino.c), not by "
         "a real packing run",
     ]
+    ctx.coverage["composition_with_C09"] = ("theorem bp_on_threadpool (coq/BpPool, Properties_C02.v): the block processor "
+        "model run ON C09's LTS of threadpool.c, any worker count >= 1, any boundedly fair schedule with arbitrary spurious wake-ups, "
+        "returns Ok with the specification's writes, inodes and fragment table; Example ex_on_threadpool computes one such run")
     if ctx.replay:
         kind = json.load(open(ctx.replay)).get("kind")
         if kind == "tool":
